@@ -16,19 +16,23 @@ open Cnfgen.Cli Cnfgen.Gen
 
 /-! ### scope -/
 
-/-- the formula sub-commands `dispatch` handles (all but: `op tseitin subsetcard` — composite custom actions;
-`and or true false dimacs` — no library call) -/
+/-- the formula sub-commands `dispatch` handles (all but `and or true false dimacs` — no library call) -/
 theorem handled_formula_commands :
     supportedNames "formula" =
       ["bphp", "cliquecoloring", "count", "cpls", "domset", "ec", "iso", "kclique", "kcliquebin", "kcolor",
-       "matching", "parity", "peb", "php", "pitfall", "ptn", "ram", "ramlb", "randkcnf", "randkxor", "rphp",
-       "stone", "subgraph", "tiling", "vdw"] := by decide +kernel
+       "matching", "op", "parity", "peb", "php", "pitfall", "ptn", "ram", "ramlb", "randkcnf", "randkxor", "rphp",
+       "stone", "subgraph", "subsetcard", "tiling", "tseitin", "vdw"] := by decide +kernel
 
-/-- the transformation sub-commands `dispatch` handles (all but `xorcomp majcomp` — custom action; `none`) -/
+/-- the transformation sub-commands `dispatch` handles (all but `none`) -/
 theorem handled_transformation_commands :
     supportedNames "transformation" =
-      ["anybut", "atleast", "atmost", "eq", "exact", "flip", "ite", "lift", "maj", "neq", "one", "or",
-       "shuffle", "xor"] := by decide +kernel
+      ["anybut", "atleast", "atmost", "eq", "exact", "flip", "ite", "lift", "maj", "majcomp", "neq", "one", "or",
+       "shuffle", "xor", "xorcomp"] := by decide +kernel
+
+/-- the sub-commands whose arguments go through `compose_two_parsers` -/
+theorem composed_commands :
+    (cliSpecs.filter (·.composed)).map (·.name) = ["op", "subsetcard", "tseitin", "majcomp", "xorcomp"] := by
+  decide +kernel
 
 /-- the option tables of the handled sub-commands are well formed (distinct positional names, no option
 string declared twice, required options are not flags) — the hypotheses of the generic theorems -/
@@ -62,13 +66,16 @@ theorem option_strings_resolve :
 /-! ### (a) flags: for all command lines -/
 
 /-- T-C17.5a′ NON-INTERFERENCE OF FLAGS.  For every handled sub-command, every boolean option `o` of it that no
-guard tests, every spelling `f` of it and EVERY command line `argv`: with the flag in front, the parser fails
+guard tests, every spelling `f` of it and EVERY command line `argv` that contains no OTHER option of `o`'s mutually
+exclusive group (`noRival`; vacuous for ungrouped options — `op --total --smart` is an argparse error): with the
+flag in front, the parser fails
 iff it failed without it (same error); otherwise the helper takes the same path — the same template, hence the
 same generator and the same argument expressions — in a namespace where every expression that does not mention
 `o`'s dest has the same value; and exactly one argument of that call mentions `o`'s dest. -/
 theorem flag_noninterference (s : CliSpec) (hs : s ∈ cliSpecs) (hsup : s.supported = true)
     (o : OptSpec) (ho : o ∈ s.opts) (hfl : isFlag o = true) (f : String) (hf : f ∈ o.flags)
-    (hng : (guardDeps s).contains o.dest = false) (argv : List String) :
+    (hng : (guardDeps s).contains o.dest = false) (argv : List String)
+    (hnr : noRival s o argv = true) :
     match dispatchTemplate s argv with
     | .error e => dispatchTemplate s (f :: argv) = .error e
     | .ok (t, ns) =>
@@ -84,7 +91,7 @@ theorem flag_noninterference (s : CliSpec) (hs : s ∈ cliSpecs) (hsup : s.suppo
     simp only [hnp, Bool.false_or] at h2
     have h3 := (List.all_eq_true.1 h2) f hf
     simpa using h3
-  have hmain := flag_noninterference_lemma s o f argv hwf hfl hres hng
+  have hmain := flag_noninterference_lemma s o f argv hwf hfl hres hnr hng
   cases hd : dispatchTemplate s argv with
   | error e => simpa [hd] using hmain
   | ok p =>
@@ -113,7 +120,7 @@ every argument expression of either has the same value in both namespaces — th
 changes nothing else. -/
 theorem variant_flag_selects_a_variant (s : CliSpec) (hs : s ∈ cliSpecs) (hsup : s.supported = true)
     (o : OptSpec) (ho : o ∈ s.opts) (hfl : isFlag o = true) (f : String) (hf : f ∈ o.flags)
-    (hg : (guardDeps s).contains o.dest = true) (argv : List String) :
+    (hg : (guardDeps s).contains o.dest = true) (argv : List String) (hnr : noRival s o argv = true) :
     (∀ e, parseArgs s (f :: argv) = .error e ↔ parseArgs s argv = .error e) ∧
     ∀ t t' ns ns', dispatchTemplate s argv = .ok (t, ns) → dispatchTemplate s (f :: argv) = .ok (t', ns') →
       t.raises = "" → t.fn ≠ "" → t'.raises = "" → t'.fn ≠ "" →
@@ -128,7 +135,7 @@ theorem variant_flag_selects_a_variant (s : CliSpec) (hs : s ∈ cliSpecs) (hsup
     simp only [hnp, Bool.false_or] at h2
     have h3 := (List.all_eq_true.1 h2) f hf
     simpa using h3
-  refine ⟨fun e => flag_parse_verdict s o f argv hwf hfl hres e, ?_⟩
+  refine ⟨fun e => flag_parse_verdict s o f argv hwf hfl hres hnr e, ?_⟩
   intro t t' ns ns' h h' hr hfn hr' hfn'
   have hfo := (List.all_eq_true.1 ((List.all_eq_true.1 every_flag_reaches_exactly_one_argument) s hs)) o
     (List.mem_filter.2 ⟨ho, hfl⟩)
@@ -153,7 +160,7 @@ theorem variant_flag_selects_a_variant (s : CliSpec) (hs : s ∈ cliSpecs) (hsup
     · exact absurd hk h1
     · exact h1
   · intro e he
-    have hframe := flag_namespace_frame s o f argv hwf hfl hres t t' ns ns' h h'
+    have hframe := flag_namespace_frame s o f argv hwf hfl hres hnr t t' ns ns' h h'
     apply hframe
     intro hdep
     rcases List.mem_append.1 he with he | he
@@ -214,43 +221,102 @@ theorem positional_tokens_no_swap (s : CliSpec) (hs : s ∈ cliSpecs) (hsup : s.
   | none => simp [hc] at hsome
   | some v => rfl
 
+/-! ### (b) the numeric form `N [d]` of the composed sub-commands -/
+
+theorem numericBranch_of_B (s : CliSpec) (c n d : OptSpec) (h : numericBranchB s c n d = true) :
+    numericBranch s c n d := by
+  unfold numericBranchB at h
+  simp only [Bool.and_eq_true, beq_iff_eq, bne_iff_ne, ne_eq, Bool.not_eq_true', List.all_eq_true,
+    Bool.or_eq_true] at h
+  obtain ⟨⟨⟨⟨⟨⟨⟨⟨⟨⟨⟨⟨⟨h1, h2⟩, h3⟩, h4⟩, h5⟩, h6⟩, h7⟩, h8⟩, h9⟩, h10⟩, h11⟩, h12⟩, h13⟩, h14⟩ := h
+  refine ⟨h1, h2, h3, h4, ?_, h6, h7, h8, h9, h10, h11, h12, h13, ?_⟩
+  · cases hc : c.compose with
+    | nil => simp [hc] at h5
+    | cons p1 r =>
+      cases r with
+      | nil => simp [hc] at h5
+      | cons p2 r2 =>
+        cases r2 with
+        | nil => simp only [hc, beq_iff_eq] at h5; exact ⟨p1, p2, rfl, h5⟩
+        | cons _ _ => simp [hc] at h5
+  · intro o ho hp
+    rcases h14 o ho with h | h
+    · rw [hp] at h; exact absurd h (by simp)
+    · exact h
+
+/-- every composed sub-command (`op tseitin subsetcard xorcomp majcomp`) has the shape the next theorem needs: its
+only positional is the `compose_two_parsers` action, whose first sub-parser has positionals `[n, d]` -/
+theorem composed_numeric_branch_exists :
+    (cliSpecs.filter (·.composed)).all (fun s => s.opts.any (fun c => s.opts.any (fun n =>
+      s.opts.any (fun d => numericBranchB s c n d)))) = true := by decide +kernel
+
+/-- T-C17.5b″ `compose_two_parsers`, numeric form, NO SWAP.  For every composed sub-command and EVERY list of argument
+tokens whose first one is a number (so the first sub-parser is chosen): accepted iff there are one or two tokens
+and each passes the validator of ITS positional; then `args.<n>` is the first token converted, and `args.<d>` is
+the second token converted, or `d`'s default when there is none. -/
+theorem composed_numeric_no_swap (s : CliSpec) (hs : s ∈ cliSpecs) (hc : s.composed = true) :
+    ∃ c n d, c ∈ s.opts ∧ n ∈ s.opts ∧ d ∈ s.opts ∧ numericBranch s c n d ∧
+      ∀ (t0 : String) (rest : List String), pyFloatOk t0 = true → (∀ t ∈ t0 :: rest, classify s t = .arg) →
+        (∀ b, parseArgs s (t0 :: rest) = .ok b →
+          (rest = [] ∧ b.lookup n.dest = convertOne n t0 ∧ b.lookup d.dest = some d.defaultVal) ∨
+          (∃ t1, rest = [t1] ∧ b.lookup n.dest = convertOne n t0 ∧ b.lookup d.dest = convertOne d t1)) ∧
+        ((∃ b, parseArgs s (t0 :: rest) = .ok b) ↔
+          ((rest = [] ∧ (convertOne n t0).isSome) ∨
+           (∃ t1, rest = [t1] ∧ (convertOne n t0).isSome ∧ (convertOne d t1).isSome))) := by
+  have h := (List.all_eq_true.1 composed_numeric_branch_exists) s (List.mem_filter.2 ⟨hs, hc⟩)
+  obtain ⟨c, hcm, h⟩ := List.any_eq_true.1 h
+  obtain ⟨n, hnm, h⟩ := List.any_eq_true.1 h
+  obtain ⟨d, hdm, h⟩ := List.any_eq_true.1 h
+  have hb := numericBranch_of_B s c n d h
+  exact ⟨c, n, d, hcm, hnm, hdm, hb, fun t0 rest hnum harg =>
+    compose_numeric_no_swap s c n d hb (t0 :: rest) t0 rest rfl hnum harg⟩
+
 /-! ### (c) totality -/
 
-/-- the handled sub-commands outside the class for which totality is proved: `php` (custom action, modelled by
-hand), `stone` (a guard compares two options), `vdw` (`*args.ks`) -/
+/-- every sub-command with standard options — all the handled ones but `php` (hand-written action) and the five
+composed ones — is in the class for which totality is proved (`totalClassExt`, Lemmas/DispatchTotal.lean: guards made
+of flags, `hasattr`, `is None` tests and comparisons of integer options protected by their `is not None` tests;
+arguments that are options, `*args.ks`, constants, flags choosing between constants; exhaustive paths) -/
 theorem commands_outside_total_class :
-    (cliSpecs.filter (fun s => s.supported && !totalClass s)).map (·.name) = ["php", "stone", "vdw"] := by
+    (cliSpecs.filter (fun s => s.supported && !totalClassExt s)).map (·.name) =
+      ["op", "php", "subsetcard", "tseitin", "majcomp", "xorcomp"] := by
   decide +kernel
 
-/-- T-C17.5c′ the parser of EVERY sub-command with standard options (incl. `stone`, `vdw`) answers on every
-command line of the fragment, and refuses only with a CLIError; every binding it makes is the action of one
-of the sub-command's own options, stored under that option's dest -/
-theorem parser_total (s : CliSpec) (hstd : s.standard = true) (argv : List String)
+/-- T-C17.5c′ the parser of EVERY handled sub-command (standard, `php`, composed) answers on every command line
+of the fragment, and refuses only with a CLIError; every binding it makes is the action of one of the
+sub-command's own options (for the composed ones: of the main parser or of the chosen sub-parser), stored under
+that option's dest -/
+theorem parser_total (s : CliSpec) (hsup : s.supported = true) (argv : List String)
     (hf : inFragment s argv = true) :
     ((∃ b, parseArgs s argv = .ok b) ∨ parseArgs s argv = .error .cliError) ∧
-    (∀ b, parseArgs s argv = .ok b → ∀ p ∈ b, ∃ o ∈ s.opts, o.dest = p.1 ∧ producible o p.2) :=
-  ⟨parseArgs_total s hstd argv hf, fun b hb => parseArgs_bindings_sound s hstd argv b hb⟩
+    (s.standard = true → ∀ b, parseArgs s argv = .ok b → ∀ p ∈ b, ∃ o ∈ s.opts, o.dest = p.1 ∧ producible o p.2) ∧
+    (s.composed = true → ∀ b, parseArgs s argv = .ok b → ∀ p ∈ b, ∃ o ∈ s.opts, o.dest = p.1 ∧ producible o p.2 ∧
+      o.action ≠ "compose_two_parsers") :=
+  ⟨parseArgs_total_supported s hsup argv hf,
+   fun hstd b hb => parseArgs_bindings_sound s hstd argv b hb,
+   fun hc b hb => parseArgs_bindings_sound_composed s hc argv b hb⟩
 
-/-- T-C17.5c TOTALITY.  For every sub-command of `totalClass` (all the handled ones but the three above) and EVERY
-command line of the fragment, `dispatch` returns a library call or a CLIError — never `unsupported`, never
-another exception -/
-theorem dispatch_total (h : HelperSpec) (s : CliSpec) (hspec : specOf h = some s) (ht : totalClass s = true)
-    (argv : List String) (hf : inFragment s argv = true) :
+/-- T-C17.5c TOTALITY.  For every sub-command with standard options (incl. `stone`, `vdw`) and EVERY command line of
+the fragment, `dispatch` returns a library call or a CLIError — never `unsupported`, never another exception -/
+theorem dispatch_total (h : HelperSpec) (s : CliSpec) (hspec : specOf h = some s) (hs : s ∈ cliSpecs)
+    (hstd : s.standard = true) (argv : List String) (hf : inFragment s argv = true) :
     (∃ c, dispatch h argv = .ok c) ∨ dispatch h argv = .error .cliError := by
   unfold dispatch
   rw [hspec]
-  exact dispatchSpec_total s ht argv hf
+  have ht := (List.all_eq_true.1 standard_commands_totalClassExt) s (List.mem_filter.2 ⟨hs, hstd⟩)
+  exact dispatchSpec_total_ext s ht argv hf
 
 /-- … and when no path of the helper raises, it returns the CLIError exactly when the PARSER refuses the tokens
 (a token that fails its validator, a wrong arity — characterised exactly by `positional_tokens_no_swap` for
 the numeric sub-commands) -/
 theorem dispatch_error_iff_parser_error (h : HelperSpec) (s : CliSpec) (hspec : specOf h = some s)
-    (ht : totalClass s = true) (hnr : s.templates.all (fun t => t.raises == "") = true)
-    (argv : List String) (hf : inFragment s argv = true) :
+    (hs : s ∈ cliSpecs) (hstd : s.standard = true) (hnr : s.templates.all (fun t => t.raises == "") = true)
+    (argv : List String) :
     dispatch h argv = .error .cliError ↔ parseArgs s argv = .error .cliError := by
   unfold dispatch
   rw [hspec]
-  exact dispatchSpec_error_iff_parse_error s ht hnr argv hf
+  have ht := (List.all_eq_true.1 standard_commands_totalClassExt) s (List.mem_filter.2 ⟨hs, hstd⟩)
+  exact dispatchSpec_error_iff_parse_error_ext s ht hnr argv
 
 /-- sub-commands with custom argument handling are refused by `dispatch`, whatever the command line -/
 theorem unhandled_commands_are_unsupported (s : CliSpec) (hs : s.supported = false) (argv : List String) :
@@ -281,7 +347,22 @@ example : dispatchNamed "formula" "stone" ["2", "pyramid", "3", "--sparse", "5"]
 example : dispatchNamed "transformation" "shuffle" ["-v"] =
     .ok ⟨"Shuffle", [.param "F"], [("polarity_flips", .str "shuffle"), ("variables_permutation", .str "fixed"),
          ("clauses_permutation", .str "shuffle")]⟩ := by decide +kernel
-example : isUnsupported (dispatchNamed "formula" "op" ["3"]) = true := by decide +kernel
+example : dispatchNamed "formula" "op" ["--plant", "5"] =
+    .ok ⟨"OrderingPrinciple", [.int 5, .bool false, .bool false, .bool true, .none],
+         [("formula_class", .param "formula_class")]⟩ := by decide +kernel
+example : dispatchNamed "formula" "op" ["--total", "--smart", "5"] = .error .cliError := by decide +kernel
+example : dispatchNamed "formula" "op" ["5", "3"] = .error .cliError := by decide +kernel   -- 5·3 is odd
+example : dispatchNamed "formula" "op" ["6", "3"] =
+    .ok ⟨"GraphOrderingPrinciple", [.graph "simple" ["gnd", "6", "3"], .bool false, .bool false, .bool false, .none],
+         [("formula_class", .param "formula_class")]⟩ := by decide +kernel
+example : dispatchNamed "formula" "subsetcard" ["--equal", "complete", "3", "4"] =
+    .ok ⟨"SubsetCardinalityFormula", [.graph "bipartite" ["complete", "3", "4"], .bool true],
+         [("formula_class", .param "formula_class")]⟩ := by decide +kernel
+example : (match dispatchNamed "formula" "tseitin" ["zero", "grid", "2", "3"] with
+          | .ok c => (c.fn, c.pos.head?, c.pos.length) | .error _ => ("", none, 0)) =
+    ("TseitinFormula", some (.graph "simple" ["grid", "2", "3"]), 2) := by decide +kernel
+example : isUnsupported (dispatchNamed "formula" "tseitin" ["zero", "file.gml"]) = true := by decide +kernel
+example : isUnsupported (dispatchNamed "formula" "and" ["1", "1"]) = true := by decide +kernel
 example : isUnsupported (dispatchNamed "formula" "bphp" ["--he", "3"]) = true := by decide +kernel
 /-- an argument flag and a variant flag exist -/
 example : (cliSpecs.any (fun s => s.supported && s.opts.any (fun o => isFlag o && !(guardDeps s).contains o.dest))) = true ∧
